@@ -151,6 +151,7 @@ func workerMain(id string, unitIdx int) {
 		reply(wireResp{Err: err.Error()})
 		return
 	}
+	interp.RepoDir = repoDir
 	t0 := time.Now()
 	_, pkg, npk, err := loadUnit(id, hdir, spec.Units[unitIdx])
 	if err != nil {
